@@ -94,6 +94,26 @@ Theorem C06_gc_invisible :
 Proof. exact gc_invisible. Qed.
 Print Assumptions C06_gc_invisible.
 
+(* The garbage collector itself runs in two phases (collect under the read lock, delete under the
+   write lock).  Deleting every collected key (the code at the pinned commit) can delete an item
+   that was set in between: a fresh acceptance vanishes.  Found while building this check,
+   reproduced on the real cache (269 of 300 000 races), repaired by a fix: commit. *)
+Theorem C06_gc_race_refuted :
+  exists (c0 : cache N entry) (W now : Z) (k : N) (v : entry),
+    let marked := gc_mark now c0 in
+    let c1 := cset N.eqb W now k v c0 in
+    cget now k c1 = Some v /\ cget now k (gc_sweep false now marked c1) = None.
+Proof. exact gc_sweep_norecheck_refuted. Qed.
+Print Assumptions C06_gc_race_refuted.
+
+(* Re-checking expiry in the second phase (the current code) makes the sweep invisible whatever
+   was collected and whatever was set in between. *)
+Theorem C06_gc_recheck_invisible :
+  forall (now now' : Z) (marked : N -> bool) (c : cache N entry) (k : N),
+    now <= now' -> cget now' k (gc_sweep true now marked c) = cget now' k c.
+Proof. exact (@gc_sweep_recheck_invisible N entry). Qed.
+Print Assumptions C06_gc_recheck_invisible.
+
 (* Racing poller, fine-grained model (Get and Set are separate steps, two threads).
    Without the mutex (the code at the pinned commit) the four-step schedule
    poller-Get, accept-Get, accept-Set, poller-Set loses the acceptance: Accept(w, 20) answered
